@@ -102,7 +102,7 @@ chk("C07", "exhaustive small-scope enumeration plus generated update/lookup scri
     "out-of-range counts, offsets landing inside, string and tuple spelling) through table[col,row], rows.get_index and table // row, "
     "before and after every single-cell assignment to the index column (by position and by name); plus generated scripts interleaving "
     "whole-column assignment (item / attribute), cell assignment, write-by-name, new and deleted columns with lookups and label checks on tables of 0..8 and (one in five) 9..64 rows "
-    "(get_index_unique labels resolve to their own row and are what show() prints). Oracle: linear scan of the model's current names.",
+    "(get_index_unique labels resolve to their own row and are what show() prints). Oracle: linear scan of the model's current names. Positions are also given from the end; names may hold a single separator character (mq:1, x->y).",
     "trusted: CPython 3.12, numpy, Hypothesis; the harness' linear-scan reference. Exhaustive only for the stated small scope; scripts "
     "are bounded search (<= 8 rows, <= 25 steps).", "DESIGN.md 4/C07", engine="hypothesis + enumeration")
 
@@ -123,7 +123,7 @@ chk("C14", "stateful (pool-based) generated derivation scripts with a per-step s
     "checked constructor with an explicit column list, +, Table.concatenate, * k, _copy(), _t, head / tail / reverse to any pool member (views of views, copies of copies) interleaved with in-place and new column assignments: "
     "after every step every pool member must be rectangular (each listed column resolves with length len(table), index listed); around "
     "every derivation a deep snapshot of the source must be unchanged, scalars must be carried over by row / column selections and the "
-    "derived content must be what the operation denotes; column expressions equal the element-wise numpy computation.",
+    "derived content must be what the operation denotes; column expressions equal the element-wise numpy computation. Two fixed column expressions are asked again on every table after every step and compared with that table's current columns.",
     "trusted: CPython 3.12, numpy, Hypothesis. Column lists name each column once; exceptions from a derivation are 'no table produced' "
     "(counted). Bounded search: <= 12 pool members, <= 25 steps.", "DESIGN.md 4/C14")
 
@@ -133,7 +133,7 @@ chk("C16", "property-based testing against construction-known factorizations, an
     "consistent well-conditioned linear problems (square / tall / wide, knob and target weights, Broyden on / off) must be solved by the "
     "first step() up to finite-difference rounding and by solve(); weight and rescale_x mappings must be mutual inverses in both "
     "directions; every merit-function view (return_scalar x rescale_x) must return the value and Jacobian of that same view as derived "
-    "analytically (weights, chain rule, 2 f^T J).",
+    "analytically (weights, chain rule, 2 f^T J). A structurally singular family (zero matrix, zero rows / columns, rcond default / 0 / None) requires the finite minimum-norm solution; the public pair view.set_x / view.get_x is checked on every view.",
     "trusted: CPython 3.12, numpy (QR used to draw orthonormal factors), Hypothesis; the harness' analytic Jacobians. Singular values are "
     "kept a factor 2 away from the rcond threshold and 1.5 apart. Bounded search.", "DESIGN.md 4/C16")
 
@@ -170,7 +170,7 @@ chk("C19", "grammar-based generation (own walker over calc_grammar) with a three
     "attr element mode: the deferred expression over refs, the immediate evaluation over plain data and the harness' Python evaluation "
     "of the derivation tree must agree bit for bit or all fail; after changing variables and element attributes through the manager they "
     "must agree again and a variable defined as the deferred expression must hold the immediate value (push path); then every element is "
-    "REPLACED by a new object through the manager and all of it is compared once more. Positions are also given from the end; names may hold a single separator character (mq:1, x->y). Two fixed column expressions are asked again on every table after every step and compared with that table's current columns. A structurally singular family (zero matrix, zero rows / columns, rcond default / 0 / None) requires the finite minimum-norm solution; the public pair view.set_x / view.get_x is checked on every view. An integer-valued family (ints up to 10**400, + - * / and signs), -0.0 and copysign, and every deferred expression asked twice per stage (same answer or same failure).",
+    "REPLACED by a new object through the manager and all of it is compared once more. An integer-valued family (ints up to 10**400, + - * / and signs), -0.0 and copysign, and every deferred expression asked twice per stage (same answer or same failure).",
     TRUST + " When the immediate evaluation hits a division by zero nothing is required of the deferred one (documented NaN deviation); "
     "if both fail the exception types may differ (evaluation order).", "DESIGN.md 4/C19")
 
